@@ -1,14 +1,479 @@
 import MV.Lemmas.Chrono
 /-!
 # C19 — calendar and period helpers agree with the civil calendar for every instant
-(work in progress: theorems are added below)
+
+Statements are about `MV.Model.Chrono` (the transcription of `toolkit/chrono/moment.go` and `period.go`
+that the oracle executes against the Go code) for **every** instant (`Int` nanoseconds since the Unix
+epoch) and **every** fixed-offset zone (`Int` seconds east).  Sections:
+
+1. the reference calendar (`MV.Model.Civil`): inverse conversions, validity, the elementary calendar
+   rules, 146097-day periodicity;
+2. start / end of day; 3. weekday of the week and relative week start; 4. next moment;
+5. same day / week / month; 6. periods (normalised, window contains anchor, overlap);
+7. the `Bool` judges of `MV.Spec.Chrono` accept the model in every constant zone (the same judges decide
+   the implementation's answers in zones with daylight-saving shifts, where nothing is proved);
+8. every helper commutes with a shift by one 400-year cycle (so the full-cycle differential sweep
+   exercises every calendar situation); non-vacuity examples.
+
+Zones with transitions are outside these theorems (`…` holds there only as far as the judged
+differential runs show; two deviations are recorded in `MV.Findings.C19`).
 -/
 namespace MV.Props.C19
-open MV.Model MV.Model.Civil MV.Model.Chrono
+open MV.Model MV.Model.Civil MV.Model.Chrono MV.Spec.Chrono
 
-/-- `civilFromDays` is a right inverse of `daysFromCivil` for every day number -/
+/-! ## 1. The reference calendar -/
+
+/-- `civilFromDays` is a right inverse of `daysFromCivil`: every day number is the day number of its date -/
 theorem C19_civil_roundtrip_days (z : Int) :
     daysFromCivil (civilFromDays z).1 (civilFromDays z).2.1 (civilFromDays z).2.2 = z :=
   daysFromCivil_civilFromDays z
+
+/-- … and a left inverse on the dates that exist -/
+theorem C19_civil_roundtrip_date (y m d : Int) (h : validDate y m d = true) :
+    civilFromDays (daysFromCivil y m d) = (y, m, d) := by
+  simp only [validDate, Bool.and_eq_true, decide_eq_true_eq] at h
+  exact civilFromDays_daysFromCivil y m d h.1.1.1 h.1.1.2 h.1.2 h.2
+
+/-- the date of every day number exists (month 1..12, day 1..length of that month) -/
+theorem C19_civil_valid (z : Int) :
+    validDate (civilFromDays z).1 (civilFromDays z).2.1 (civilFromDays z).2.2 = true := by
+  obtain ⟨a, b, c, d⟩ := civilFromDays_valid z
+  simp only [validDate, Bool.and_eq_true, decide_eq_true_eq]
+  exact ⟨⟨⟨a, b⟩, c⟩, d⟩
+
+/-- the calendar is the one defined by the elementary rules: 1970-01-01 is day 0 (a Thursday), the
+    next day is one more, a month has `daysInMonth` days (leap-year rule `isLeap`), December is
+    followed by January of the next year -/
+theorem C19_civil_calendar_rules :
+    daysFromCivil 1970 1 1 = 0 ∧ weekdayOfDays 0 = 4 ∧
+    (∀ y m d k, daysFromCivil y m (d + k) = daysFromCivil y m d + k) ∧
+    (∀ y m, 1 ≤ m → m ≤ 11 → daysFromCivil y (m + 1) 1 = daysFromCivil y m 1 + daysInMonth y m) ∧
+    (∀ y, daysFromCivil (y + 1) 1 1 = daysFromCivil y 12 1 + 31) ∧
+    (∀ z, weekdayOfDays (z + 1) = (weekdayOfDays z + 1) % 7 ∧ 0 ≤ weekdayOfDays z ∧ weekdayOfDays z ≤ 6) := by
+  refine ⟨by decide, by decide, daysFromCivil_day, daysFromCivil_month_step, daysFromCivil_year_step, ?_⟩
+  intro z; unfold weekdayOfDays; omega
+
+/-- the calendar repeats every 146097 days = 400 years = 20871 weeks: dates shift by 400 years,
+    weekdays do not change (so a sweep over one cycle visits every (month, day, weekday, leap-ness)) -/
+theorem C19_civil_periodic_146097 (z : Int) :
+    civilFromDays (z + 146097) = ((civilFromDays z).1 + 400, (civilFromDays z).2.1, (civilFromDays z).2.2) ∧
+    weekdayOfDays (z + 146097) = weekdayOfDays z ∧
+    (∀ y m d, daysFromCivil (y + 400) m d = daysFromCivil y m d + 146097) ∧
+    (∀ y, isLeap (y + 400) = isLeap y) := by
+  refine ⟨civilFromDays_add146097 z, weekdayOfDays_add146097 z, daysFromCivil_add400, ?_⟩
+  intro y
+  have h := isLeap_iff y
+  have h' := isLeap_iff (y + 400)
+  cases h1 : isLeap y <;> cases h2 : isLeap (y + 400) <;> simp_all <;> omega
+
+/-- `GetMonthDays` is the length of the month of the instant -/
+theorem C19_monthDays (t : Time) : getMonthDays t = daysInMonth t.year t.month := getMonthDays_eq t
+
+/-! ## 2. Start / end of day -/
+
+/-- `GetStartOfDay t` is the closed-form local midnight (model = functional spec) -/
+theorem C19_startOfDay_refines (t : Time) :
+    getStartOfDay t = ⟨Spec.Chrono.startOfDay t.off t.ns, t.off⟩ := getStartOfDay_eq t
+
+theorem C19_endOfDay_refines (t : Time) :
+    getEndOfDay t = ⟨Spec.Chrono.endOfDay t.off t.ns, t.off⟩ := getEndOfDay_eq t
+
+/-- start of day: not after `t`, less than a day before it, on the same local date, wall clock 00:00:00.0,
+    in the location of `t` -/
+theorem C19_startOfDay (t : Time) :
+    let r := getStartOfDay t
+    r.ns ≤ t.ns ∧ t.ns < r.ns + nsPerDay ∧ r.off = t.off ∧
+    localDays t.off r.ns = localDays t.off t.ns ∧
+    r.hour = 0 ∧ r.minute = 0 ∧ r.second = 0 ∧ r.nanosecond = 0 := by
+  intro r
+  have hr : r = ⟨Spec.Chrono.startOfDay t.off t.ns, t.off⟩ := getStartOfDay_eq t
+  have hrange := nsOfDay_range t.off t.ns
+  have hm := localDays_midnight t.off (localDays t.off t.ns) 0 (by omega) (by unfold nsPerDay; omega)
+  rw [Int.add_zero, ← startOfDay_eq] at hm
+  rw [hr]
+  simp only [Time.hour, Time.minute, Time.second, Time.nanosecond, Civil.hour, Civil.minute, Civil.second,
+    Civil.nanosecond, hm.2]
+  refine ⟨?_, ?_, trivial, hm.1, by decide, by decide, by decide, by decide⟩
+  · unfold Spec.Chrono.startOfDay; omega
+  · unfold Spec.Chrono.startOfDay; omega
+
+/-- end of day: same local date, wall clock 23:59:59.0, less than a day after `t`'s midnight, never before
+    `t` by a second or more -/
+theorem C19_endOfDay (t : Time) :
+    let r := getEndOfDay t
+    r.off = t.off ∧ localDays t.off r.ns = localDays t.off t.ns ∧
+    r.hour = 23 ∧ r.minute = 59 ∧ r.second = 59 ∧ r.nanosecond = 0 ∧
+    r.ns = (getStartOfDay t).ns + 86399 * nsPerSec ∧ t.ns < r.ns + nsPerSec := by
+  intro r
+  have hr : r = ⟨Spec.Chrono.endOfDay t.off t.ns, t.off⟩ := getEndOfDay_eq t
+  have hrange := nsOfDay_range t.off t.ns
+  have hm := localDays_midnight t.off (localDays t.off t.ns) (86399 * nsPerSec) (by unfold nsPerSec; omega)
+    (by unfold nsPerDay nsPerSec; omega)
+  rw [← startOfDay_eq] at hm
+  rw [hr, getStartOfDay_eq]
+  simp only [Time.hour, Time.minute, Time.second, Time.nanosecond, Civil.hour, Civil.minute, Civil.second,
+    Civil.nanosecond, Spec.Chrono.endOfDay, hm.2]
+  refine ⟨trivial, hm.1, by decide, by decide, by decide, by decide, trivial, ?_⟩
+  unfold Spec.Chrono.startOfDay nsPerDay nsPerSec at *; omega
+
+/-- relative start / end of day: the boundary of the local date `offsetDays` days away -/
+theorem C19_relativeDay (t : Time) (k : Int) :
+    getRelativeStartOfDay t k = ⟨(getStartOfDay t).ns + k * nsPerDay, t.off⟩ ∧
+    getRelativeEndOfDay t k = ⟨(getEndOfDay t).ns + k * nsPerDay, t.off⟩ := by
+  rw [getRelativeStartOfDay_eq, getRelativeEndOfDay_eq, getStartOfDay_eq, getEndOfDay_eq]
+  exact ⟨rfl, rfl⟩
+
+/-! ## 3. Weekday of the week, relative week start -/
+
+theorem C19_startOfWeek_refines (t : Time) (wd : Int) :
+    getStartOfWeek t wd = ⟨weekdayStart t.off t.ns wd, t.off⟩ := getStartOfWeek_eq t wd
+
+/-- `GetStartOfWeek t wd`: 00:00:00 on the requested weekday, inside the Monday-based week that contains
+    `t`'s local date (Sunday is its last day), hence less than a week away on either side -/
+theorem C19_startOfWeek (t : Time) (wd : Int) (h0 : 0 ≤ wd) (h1 : wd ≤ 6) :
+    let r := getStartOfWeek t wd
+    r.off = t.off ∧ r.weekday = wd ∧ nsOfDay t.off r.ns = 0 ∧
+    mondayOf (localDays t.off r.ns) = mondayOf (localDays t.off t.ns) ∧
+    r.ns < t.ns + nsPerWeek ∧ t.ns < r.ns + nsPerWeek := by
+  intro r
+  have hr : r = ⟨weekdayStart t.off t.ns wd, t.off⟩ := getStartOfWeek_eq t wd
+  obtain ⟨hl, hn⟩ := weekdayStart_local t.off t.ns wd
+  have hs := local_split t.off t.ns
+  have hrange := nsOfDay_range t.off t.ns
+  have hs' := local_split t.off (weekdayStart t.off t.ns wd)
+  rw [hl, hn] at hs'
+  rw [hr]
+  simp only [Time.weekday, Civil.weekday, hl, hn]
+  generalize localDays t.off t.ns = z at *
+  generalize nsOfDay t.off t.ns = x at *
+  unfold mondayOf isoIndex weekdayOfDays nsPerWeek nsPerDay nsPerSec at *
+  refine ⟨trivial, ?_, trivial, ?_, ?_, ?_⟩ <;> split at hs' <;> (try split) <;> omega
+
+/-- `GetEndOfWeek t wd` is 23:59:59 of that same day -/
+theorem C19_endOfWeek (t : Time) (wd : Int) :
+    getEndOfWeek t wd = ⟨(getStartOfWeek t wd).ns + 86399 * nsPerSec, t.off⟩ := by
+  rw [getEndOfWeek_eq, getStartOfWeek_eq]
+
+theorem C19_relStartOfWeek_refines (t : Time) (wd k : Int) (h0 : 0 ≤ wd) (h1 : wd ≤ 6) :
+    getRelativeStartOfWeek t wd k = ⟨relWeekStart t.off t.ns wd k, t.off⟩ :=
+  getRelativeStartOfWeek_eq t wd k h0 h1
+
+/-- `GetRelativeStartOfWeek now wd 0` is the latest `wd`-day 00:00:00 that is not after `now`: it is a
+    `wd`-day at midnight, not after `now`, less than a week before it, and every local midnight of a
+    `wd`-day that is not after `now` is not after it -/
+theorem C19_relStartOfWeek_latest_not_after (t : Time) (wd : Int) (h0 : 0 ≤ wd) (h1 : wd ≤ 6) :
+    let r := getRelativeStartOfWeek t wd 0
+    r.off = t.off ∧ r.weekday = wd ∧ nsOfDay t.off r.ns = 0 ∧ r.ns ≤ t.ns ∧ t.ns < r.ns + nsPerWeek ∧
+    ∀ x : Int, nsOfDay t.off x = 0 → weekdayOfDays (localDays t.off x) = wd → x ≤ t.ns → x ≤ r.ns := by
+  intro r
+  have hr : r = ⟨relWeekStart t.off t.ns wd 0, t.off⟩ := getRelativeStartOfWeek_eq t wd 0 h0 h1
+  obtain ⟨hl, hn⟩ := relWeekStart_local t.off t.ns wd 0
+  have hs := local_split t.off t.ns
+  have hrange := nsOfDay_range t.off t.ns
+  have hs' := local_split t.off (relWeekStart t.off t.ns wd 0)
+  rw [hl, hn] at hs'
+  rw [hr]
+  simp only [Time.weekday, Civil.weekday, hl, hn]
+  refine ⟨trivial, ?_, trivial, ?_, ?_, ?_⟩
+  · unfold weekdayOfDays; omega
+  · unfold nsPerDay nsPerSec at *; omega
+  · unfold nsPerWeek nsPerDay nsPerSec at *; omega
+  · intro x hx0 hxw hxt
+    have hsx := local_split t.off x
+    rw [hx0] at hsx
+    generalize localDays t.off x = zx at *
+    generalize localDays t.off t.ns = z at *
+    unfold weekdayOfDays nsPerDay nsPerSec at *
+    omega
+
+/-- … and `offsetWeeks` moves it by whole weeks -/
+theorem C19_relStartOfWeek_shift (t : Time) (wd k : Int) (h0 : 0 ≤ wd) (h1 : wd ≤ 6) :
+    getRelativeStartOfWeek t wd k = ⟨(getRelativeStartOfWeek t wd 0).ns + k * nsPerWeek, t.off⟩ := by
+  rw [getRelativeStartOfWeek_eq t wd k h0 h1, getRelativeStartOfWeek_eq t wd 0 h0 h1]
+  congr 1
+  unfold relWeekStart midnightOf nsPerWeek nsPerDay; dsimp only; omega
+
+/-- relative end of week / time of week: 23:59:59, resp. `now`'s own wall-clock time, on that day -/
+theorem C19_relEndOfWeek_timeOfWeek (t : Time) (wd k : Int) (h0 : 0 ≤ wd) (h1 : wd ≤ 6) :
+    getRelativeEndOfWeek t wd k = ⟨(getRelativeStartOfWeek t wd k).ns + 86399 * nsPerSec, t.off⟩ ∧
+    getRelativeTimeOfWeek t wd k = ⟨(getRelativeStartOfWeek t wd k).ns + nsOfDay t.off t.ns, t.off⟩ := by
+  rw [getRelativeEndOfWeek_eq t wd k h0 h1, getRelativeTimeOfWeek_eq t wd k h0 h1,
+    getRelativeStartOfWeek_eq t wd k h0 h1]
+  exact ⟨rfl, rfl⟩
+
+
+/-! ## 4. Next moment -/
+
+theorem C19_nextMoment_refines (now : Time) (h mi s : Int) :
+    getNextMoment now.off now h mi s = ⟨nextMoment now.off now.ns h mi s, now.off⟩ :=
+  getNextMoment_eq now h mi s
+
+/-- wall clock of an instant: nanoseconds since local midnight -/
+theorem nsOfDay_of_hms (off z h mi s : Int) (hv : validHMS h mi s = true) :
+    nsOfDay off (z * nsPerDay - off * nsPerSec + (h * 3600 + mi * 60 + s) * nsPerSec) = (h * 3600 + mi * 60 + s) * nsPerSec ∧
+    localDays off (z * nsPerDay - off * nsPerSec + (h * 3600 + mi * 60 + s) * nsPerSec) = z := by
+  simp only [validHMS, Bool.and_eq_true, decide_eq_true_eq] at hv
+  have := localDays_midnight off z ((h * 3600 + mi * 60 + s) * nsPerSec) (by unfold nsPerSec; omega)
+    (by unfold nsPerDay nsPerSec; omega)
+  exact ⟨this.2, this.1⟩
+
+/-- `GetNextMoment now h:mi:s` (with `now` expressed in `time.Local`) is the earliest instant strictly
+    after `now` whose wall clock shows `h:mi:s.000000000`: it is in the future, at most a day ahead,
+    shows that time, and no instant in between does -/
+theorem C19_nextMoment_earliest_future (now : Time) (h mi s : Int) (hv : validHMS h mi s = true) :
+    let r := getNextMoment now.off now h mi s
+    r.off = now.off ∧ now.ns < r.ns ∧ r.ns ≤ now.ns + nsPerDay ∧
+    nsOfDay now.off r.ns = (h * 3600 + mi * 60 + s) * nsPerSec ∧
+    ∀ x : Int, now.ns < x → nsOfDay now.off x = (h * 3600 + mi * 60 + s) * nsPerSec → r.ns ≤ x := by
+  intro r
+  have hr : r = ⟨nextMoment now.off now.ns h mi s, now.off⟩ := getNextMoment_eq now h mi s
+  have hv' := hv
+  simp only [validHMS, Bool.and_eq_true, decide_eq_true_eq] at hv'
+  have hs := local_split now.off now.ns
+  have hrange := nsOfDay_range now.off now.ns
+  have h1 := nsOfDay_of_hms now.off (localDays now.off now.ns) h mi s hv
+  have h2 := nsOfDay_of_hms now.off (localDays now.off now.ns + 1) h mi s hv
+  rw [hr]
+  unfold nextMoment
+  rw [startOfDay_eq]
+  dsimp only
+  generalize hw : (h * 3600 + mi * 60 + s) * nsPerSec = w at *
+  have hw0 : 0 ≤ w := by rw [← hw]; unfold nsPerSec; omega
+  have hw1 : w < nsPerDay := by rw [← hw]; unfold nsPerDay nsPerSec; omega
+  generalize localDays now.off now.ns = z at *
+  by_cases hc : z * nsPerDay - now.off * nsPerSec + w > now.ns
+  · rw [if_pos hc]
+    refine ⟨rfl, hc, ?_, h1.1, ?_⟩
+    · unfold nsPerDay nsPerSec at *; omega
+    · intro x hx hxw
+      have hsx := local_split now.off x
+      rw [hxw] at hsx
+      generalize localDays now.off x = zx at *
+      unfold nsPerDay nsPerSec at *; omega
+  · rw [if_neg hc]
+    have e : z * nsPerDay - now.off * nsPerSec + w + nsPerDay = (z + 1) * nsPerDay - now.off * nsPerSec + w := by
+      unfold nsPerDay; omega
+    rw [e]
+    refine ⟨rfl, ?_, ?_, h2.1, ?_⟩
+    · unfold nsPerDay nsPerSec at *; omega
+    · unfold nsPerDay nsPerSec at *; omega
+    · intro x hx hxw
+      have hsx := local_split now.off x
+      rw [hxw] at hsx
+      generalize localDays now.off x = zx at *
+      unfold nsPerDay nsPerSec at *; omega
+
+/-- `IsMomentPassed` / `IsMomentFuture`: strictly after today's moment, resp. not -/
+theorem C19_momentPassed (now : Time) (h mi s : Int) :
+    (isMomentPassed now.off now h mi s = true ↔ nsOfDay now.off now.ns > (h * 3600 + mi * 60 + s) * nsPerSec) ∧
+    isMomentFuture now.off now h mi s = !isMomentPassed now.off now h mi s := by
+  refine ⟨?_, rfl⟩
+  unfold isMomentPassed mkDate Time.year Time.month Time.day Time.after
+  dsimp only
+  rw [date_of_fields0]
+  have hs := local_split now.off now.ns
+  simp only [decide_eq_true_eq]
+  unfold secPerDay nsPerDay nsPerSec at *
+  omega
+
+/-! ## 5. Same day / week / month -/
+
+/-- the three predicates are kernels of functions (start of day, Monday of the week, (year, month)),
+    hence equivalence relations — for times in any zones -/
+theorem C19_same_equivalence :
+    (∀ a, isSameDay a a = true) ∧ (∀ a b, isSameDay a b = isSameDay b a) ∧
+    (∀ a b c, isSameDay a b = true → isSameDay b c = true → isSameDay a c = true) ∧
+    (∀ a, isSameWeek a a = true) ∧ (∀ a b, isSameWeek a b = isSameWeek b a) ∧
+    (∀ a b c, isSameWeek a b = true → isSameWeek b c = true → isSameWeek a c = true) ∧
+    (∀ a, isSameMonth a a = true) ∧ (∀ a b, isSameMonth a b = isSameMonth b a) ∧
+    (∀ a b c, isSameMonth a b = true → isSameMonth b c = true → isSameMonth a c = true) := by
+  simp only [isSameDay, isSameWeek, isSameMonth, Time.equal, decide_eq_true_eq, Bool.and_eq_true, beq_iff_eq]
+  refine ⟨fun _ => trivial, ?_, ?_, fun _ => trivial, ?_, ?_, fun _ => ⟨trivial, trivial⟩, ?_, ?_⟩
+  · intro a b; exact decide_eq_decide.mpr ⟨Eq.symm, Eq.symm⟩
+  · intro a b c h1 h2; exact h1.trans h2
+  · intro a b; exact decide_eq_decide.mpr ⟨Eq.symm, Eq.symm⟩
+  · intro a b c h1 h2; exact h1.trans h2
+  · intro a b
+    cases h1 : (a.month == b.month) <;> cases h2 : (a.year == b.year) <;>
+      cases h3 : (b.month == a.month) <;> cases h4 : (b.year == a.year) <;> simp_all
+  · intro a b c h1 h2; exact ⟨h1.1.trans h2.1, h1.2.trans h2.2⟩
+
+/-- consistency with the boundaries, for two times of one zone: same day ⇔ same local date ⇔ the second
+    lies in `[start of day, start of day + 24 h)` of the first -/
+theorem C19_sameDay_boundaries (off a b : Int) :
+    (isSameDay ⟨a, off⟩ ⟨b, off⟩ = true ↔ localDays off a = localDays off b) ∧
+    (isSameDay ⟨a, off⟩ ⟨b, off⟩ = true ↔
+      (getStartOfDay ⟨a, off⟩).ns ≤ b ∧ b < (getStartOfDay ⟨a, off⟩).ns + nsPerDay) := by
+  simp only [isSameDay, Time.equal, getStartOfDay_eq, decide_eq_true_eq]
+  rw [startOfDay_eq, startOfDay_eq]
+  have hb := local_split off b
+  have hrb := nsOfDay_range off b
+  generalize localDays off a = za at *
+  generalize localDays off b = zb at *
+  unfold nsPerDay nsPerSec at *
+  constructor <;> constructor <;> intro h <;> omega
+
+/-- same week ⇔ same Monday ⇔ the second lies in `[Monday 00:00, Monday 00:00 + 7 days)` of the first -/
+theorem C19_sameWeek_boundaries (off a b : Int) :
+    (isSameWeek ⟨a, off⟩ ⟨b, off⟩ = true ↔ mondayOf (localDays off a) = mondayOf (localDays off b)) ∧
+    (isSameWeek ⟨a, off⟩ ⟨b, off⟩ = true ↔
+      (getStartOfWeek ⟨a, off⟩ 1).ns ≤ b ∧ b < (getStartOfWeek ⟨a, off⟩ 1).ns + nsPerWeek) := by
+  simp only [isSameWeek, Time.equal, getStartOfWeek_eq, decide_eq_true_eq]
+  unfold weekdayStart midnightOf
+  have hb := local_split off b
+  have hrb := nsOfDay_range off b
+  generalize localDays off a = za at *
+  generalize localDays off b = zb at *
+  unfold mondayOf isoIndex nsPerWeek nsPerDay nsPerSec at *
+  simp only [show ¬ ((1 : Int) = 0) by decide, if_false]
+  constructor <;> constructor <;> intro h <;> omega
+
+/-- same month ⇔ equal (year, month) ⇔ equal first-of-month day number; a same day is in the same week,
+    month and year -/
+theorem C19_sameMonth_boundaries (off a b : Int) :
+    (isSameMonth ⟨a, off⟩ ⟨b, off⟩ = true ↔
+      daysFromCivil (year off a) (month off a) 1 = daysFromCivil (year off b) (month off b) 1) ∧
+    (isSameDay ⟨a, off⟩ ⟨b, off⟩ = true →
+      isSameWeek ⟨a, off⟩ ⟨b, off⟩ = true ∧ isSameMonth ⟨a, off⟩ ⟨b, off⟩ = true ∧ isSameYear ⟨a, off⟩ ⟨b, off⟩ = true) := by
+  constructor
+  · simp only [isSameMonth, Time.month, Time.year, Bool.and_eq_true, beq_iff_eq]
+    constructor
+    · intro h; rw [h.1, h.2]
+    · intro h
+      obtain ⟨a1, a2, _, _⟩ := civilFromDays_valid (localDays off a)
+      obtain ⟨b1, b2, _, _⟩ := civilFromDays_valid (localDays off b)
+      have da := daysInMonth_eq (year off a) (month off a) a1 a2
+      have db := daysInMonth_eq (year off b) (month off b) b1 b2
+      have := daysFromCivil_inj (year off a) (month off a) 1 (year off b) (month off b) 1 a1 a2 (by omega)
+        (by unfold year month at da ⊢; omega) b1 b2 (by omega) (by unfold year month at db ⊢; omega) h
+      exact ⟨this.2.1, this.1⟩
+  · intro h
+    have hd := ((C19_sameDay_boundaries off a b).1).mp h
+    refine ⟨((C19_sameWeek_boundaries off a b).1).mpr (by rw [hd]), ?_, ?_⟩
+    · simp only [isSameMonth, Time.month, Time.year, Civil.month, Civil.year, hd, Bool.and_eq_true, beq_iff_eq]
+      exact ⟨trivial, trivial⟩
+    · simp only [isSameYear, Time.year, Civil.year, hd, beq_iff_eq]
+
+
+/-! ## 6. Periods -/
+
+/-- every constructor returns a period that starts no later than it ends -/
+theorem C19_period_normalised :
+    (∀ s e, (newPeriod s e).1.ns ≤ (newPeriod s e).2.ns) ∧
+    (∀ t size, (newPeriodWindow t size).1.ns ≤ (newPeriodWindow t size).2.ns) ∧
+    (∀ t, (newPeriodWindowWeek t).1.ns ≤ (newPeriodWindowWeek t).2.ns) ∧
+    (∀ t d, (newPeriodWithDayZero t d).1.ns ≤ (newPeriodWithDayZero t d).2.ns) ∧
+    (∀ t d, (newPeriodWithDay t d).1.ns ≤ (newPeriodWithDay t d).2.ns) ∧
+    (∀ u t n, (newPeriodWithUnit u t n).1.ns ≤ (newPeriodWithUnit u t n).2.ns) := by
+  have np : ∀ s e, (newPeriod s e).1.ns ≤ (newPeriod s e).2.ns := by
+    intro s e
+    unfold newPeriod Time.after
+    by_cases h : s.ns > e.ns
+    · simp only [h, decide_true, if_true]; omega
+    · simp only [h, decide_false]; simp; omega
+  refine ⟨np, fun t size => np _ _, ?_, fun t d => np _ _, fun t d => np _ _, fun u t n => np _ _⟩
+  intro t
+  unfold newPeriodWindowWeek
+  simp only [Time.addDate]
+  rw [addDate_days]
+  unfold nsPerDay; omega
+
+/-- `NewPeriod` keeps both endpoints (it only orders them) -/
+theorem C19_newPeriod_endpoints (s e : Time) :
+    (newPeriod s e = (s, e) ∧ s.ns ≤ e.ns) ∨ (newPeriod s e = (e, s) ∧ e.ns < s.ns) := by
+  unfold newPeriod Time.after
+  by_cases h : s.ns > e.ns
+  · right; simp [h]
+  · left; simp [h]; omega
+
+/-- a window of positive size is the half-open cell `[k·size, (k+1)·size)` (counted from Go's zero time)
+    that contains its anchor -/
+theorem C19_window_contains_anchor (t : Time) (size : Int) (h : 0 < size) :
+    let p := newPeriodWindow t size
+    p.1.ns ≤ t.ns ∧ t.ns < p.2.ns ∧ p.2.ns - p.1.ns = size ∧ (p.1.ns + unixToInternalNs) % size = 0 := by
+  intro p
+  have hp : p = (⟨Civil.truncate t.ns size, t.off⟩, ⟨Civil.truncate t.ns size + size, t.off⟩) := by
+    show newPeriodWindow t size = _
+    unfold newPeriodWindow newPeriod Time.truncate Time.add Time.after
+    dsimp only
+    have : ¬ (Civil.truncate t.ns size > Civil.truncate t.ns size + size) := by omega
+    simp [this]
+  rw [hp]
+  dsimp only
+  unfold Civil.truncate
+  have hn : ¬ (size ≤ 0) := by omega
+  rw [if_neg hn]
+  have h1 := Int.emod_nonneg (t.ns + unixToInternalNs) (show size ≠ 0 by omega)
+  have h2 := Int.emod_lt_of_pos (t.ns + unixToInternalNs) h
+  refine ⟨by omega, by omega, by omega, ?_⟩
+  have e : t.ns - (t.ns + unixToInternalNs) % size + unixToInternalNs =
+      (t.ns + unixToInternalNs) - (t.ns + unixToInternalNs) % size := by omega
+  rw [e]
+  have h3 := Int.emod_add_mul_ediv (t.ns + unixToInternalNs) size
+  have e2 : (t.ns + unixToInternalNs) - (t.ns + unixToInternalNs) % size = size * ((t.ns + unixToInternalNs) / size) := by omega
+  rw [e2]
+  exact Int.mul_emod_right _ _
+
+/-- the week window of `t` is Monday 00:00:00 of its week up to the next Monday 00:00:00 and contains `t` -/
+theorem C19_weekWindow_contains_anchor (t : Time) :
+    let p := newPeriodWindowWeek t
+    p.1 = getStartOfWeek t 1 ∧ p.2.ns = p.1.ns + nsPerWeek ∧ p.1.ns ≤ t.ns ∧ t.ns < p.2.ns := by
+  intro p
+  have hp : p = (getStartOfWeek t 1, (getStartOfWeek t 1).addDate 0 0 7) := rfl
+  rw [hp]
+  simp only [Time.addDate]
+  rw [addDate_days, getStartOfWeek_eq]
+  dsimp only
+  have hs := local_split t.off t.ns
+  have hrange := nsOfDay_range t.off t.ns
+  unfold weekdayStart midnightOf mondayOf isoIndex
+  generalize localDays t.off t.ns = z at *
+  simp only [show ¬ ((1 : Int) = 0) by decide, if_false]
+  unfold nsPerWeek nsPerDay nsPerSec at *
+  refine ⟨trivial, by omega, by omega, by omega⟩
+
+/-- a period made from an anchor and a non-negative length starts at the anchor -/
+theorem C19_periodWith_contains_anchor (u : Int) (t : Time) (n : Int) :
+    let p := newPeriodWithUnit u t n
+    p.1.ns ≤ t.ns ∧ t.ns ≤ p.2.ns ∧ (p.2.ns - p.1.ns = n * u ∨ p.2.ns - p.1.ns = -(n * u)) := by
+  intro p
+  rcases C19_newPeriod_endpoints t (t.add (n * u)) with ⟨h, h'⟩ | ⟨h, h'⟩
+  · have : p = (t, t.add (n * u)) := h
+    rw [this]; simp only [Time.add] at *; omega
+  · have : p = (t.add (n * u), t) := h
+    rw [this]; simp only [Time.add] at *; omega
+
+/-- overlap is symmetric -/
+theorem C19_overlap_symm (p q : Period) : Period.isOverlap p q = Period.isOverlap q p := by
+  unfold Period.isOverlap; exact Bool.or_comm _ _
+
+/-- two positive-length periods overlap exactly when they share interior time -/
+theorem C19_overlap_iff_interior (p q : Period) (hp : p.1.ns < p.2.ns) (hq : q.1.ns < q.2.ns) :
+    Period.isOverlap p q = true ↔ Max.max p.1.ns q.1.ns < Min.min p.2.ns q.2.ns := by
+  simp only [Period.isOverlap, Period.isBetweenOrEqualPeriod, Period.isBetween, Time.before, Time.after,
+    Time.equal, Bool.or_eq_true, Bool.and_eq_true, decide_eq_true_eq]
+  rw [Int.max_def, Int.min_def]
+  split <;> split <;> omega
+
+/-- … and the judge form used on the implementation's answers -/
+theorem C19_overlap_judge (a b c d : Int) (h1 : a < b) (h2 : c < d) :
+    Period.isOverlap (⟨a, 0⟩, ⟨b, 0⟩) (⟨c, 0⟩, ⟨d, 0⟩) = interiorsMeet a b c d := by
+  have := C19_overlap_iff_interior (⟨a, 0⟩, ⟨b, 0⟩) (⟨c, 0⟩, ⟨d, 0⟩) h1 h2
+  dsimp only at this
+  unfold interiorsMeet
+  cases h : Period.isOverlap (⟨a, 0⟩, ⟨b, 0⟩) (⟨c, 0⟩, ⟨d, 0⟩)
+  · rw [h] at this; simp only [Bool.false_eq_true, false_iff] at this; simp [this]
+  · rw [h] at this; simp only [true_iff] at this; simp [this]
+
+/-- point predicates of a normalised period -/
+theorem C19_period_point_predicates (p : Period) (t : Time) (h : p.1.ns ≤ p.2.ns) :
+    (Period.isBefore p t = true ↔ p.2.ns < t.ns) ∧ (Period.isAfter p t = true ↔ t.ns < p.1.ns) ∧
+    (Period.isBetween p t = true ↔ p.1.ns < t.ns ∧ t.ns < p.2.ns) ∧
+    (Period.isOngoing p t = true ↔ p.1.ns ≤ t.ns ∧ t.ns < p.2.ns) ∧
+    (Period.isBetweenOrEqual p t = true ↔ p.1.ns ≤ t.ns ∧ t.ns ≤ p.2.ns) := by
+  simp only [Period.isBefore, Period.isAfter, Period.isBetween, Period.isOngoing, Period.isBetweenOrEqual,
+    Time.before, Time.after, Time.equal, Bool.or_eq_true, Bool.and_eq_true, decide_eq_true_eq]
+  refine ⟨trivial, ?_, trivial, ?_, ?_⟩ <;> constructor <;> intro h' <;> omega
+
 
 end MV.Props.C19
